@@ -64,7 +64,7 @@ Destroy(r) ==
 
 Marker(r, t, src) ==
   /\ MayRecord(r, t)
-  /\ rec' = [rec EXCEPT ![r][t] = Append(@, Ev("i", Text(src, r), "", 0))] /\ rstate' = rstate
+  /\ rec' = [rec EXCEPT ![r][t] = Append(@, Ev("i", Text(src, r), "", NoVal))] /\ rstate' = rstate
   /\ last' = [a |-> "RMarker", arg |-> [r |-> r, t |-> t, src |-> src, csrc |-> ""], exp |-> Void, cls |-> ""]
 
 Counter(r, t, src, val) ==
@@ -75,12 +75,12 @@ Counter(r, t, src, val) ==
 \* begin with a category (the category goes through the same cache), end
 Begin(r, t, src, csrc) ==
   /\ MayRecord(r, t)
-  /\ rec' = [rec EXCEPT ![r][t] = Append(@, Ev("B", Text(src, r), Text(csrc, r), 0))] /\ rstate' = rstate
+  /\ rec' = [rec EXCEPT ![r][t] = Append(@, Ev("B", Text(src, r), Text(csrc, r), NoVal))] /\ rstate' = rstate
   /\ last' = [a |-> "RBegin", arg |-> [r |-> r, t |-> t, src |-> src, csrc |-> csrc], exp |-> Void, cls |-> ""]
 
 End(r, t) ==
   /\ MayRecord(r, t) /\ DepthOf(KindsOf(rec[r][t])) > 0
-  /\ rec' = [rec EXCEPT ![r][t] = Append(@, Ev("E", "", "", 0))] /\ rstate' = rstate
+  /\ rec' = [rec EXCEPT ![r][t] = Append(@, Ev("E", "", "", NoVal))] /\ rstate' = rstate
   /\ last' = [a |-> "REnd", arg |-> [r |-> r, t |-> t], exp |-> Void, cls |-> ""]
 
 Visible(q) == LET T == Cardinality(Threads)
@@ -106,7 +106,7 @@ Next ==
   \/ \E r \in Recorders : Create(r) \/ Destroy(r) \/ Save(r)
   \/ \E r \in Recorders, t \in Threads :
        \/ \E src \in Sources : Marker(r, t, src)
-       \/ Counter(r, t, "L1", 100 * r + t)
+       \/ Counter(r, t, "L1", IF t = 1 THEN ToString(100 * r + t) ELSE "18446744073709551615")
        \/ Begin(r, t, "L2", "L1") \/ End(r, t)
 
 Spec == Init /\ [][Next]_vars
@@ -119,7 +119,7 @@ Bounded == Total <= MaxEvents
 \* the log a correct saveLog writes for recorder r (tids in thread order)
 Entry(tid, ph, name, cat, val) == [tid |-> tid, ph |-> ph, name |-> name, cat |-> cat, val |-> val]
 RefLog(r) == Concat([t \in 1..Cardinality(Threads) |->
-                 <<Entry(t - 1, "M", "thread_name", "", 0)>> \o
+                 <<Entry(t - 1, "M", "thread_name", "", NoVal)>> \o
                  [i \in DOMAIN rec[r][t] |-> LET e == rec[r][t][i] IN Entry(t - 1, e.k, e.name, e.cat, e.val)]])
 \* what recorder o recorded, as far as recorder r's log is concerned: counters whose name r never recorded are indistinguishable
 \* from the counters a recorder adds by itself and are ignored (TraceLogContract!Relevant)
